@@ -287,6 +287,56 @@ def run_http(ctx, li, shape):
                     detail={'a': leaf, 'b': other})
 
 
+EQ_PAIRS = [
+    ('rule:Admin_Required', 'rule:admin_required'),
+    ('user_name:Alice', 'user_name:alice'),
+    ('role:x and project_id:%(Project_ID)s',
+     'role:x and project_id:%(project_id)s'),
+    ('True:%(x)s', 'true:%(x)s'),
+    ("'Member':%(x)s", "'member':%(x)s"),
+    ('role:Admin', 'role:admin'),            # decide alike, print unlike
+    ('role:a or role:b', 'role:b or role:a'),
+    ('role:a and role:b', '(role:a and role:b)'),
+    ('@', ''), ('!', 'not @'),
+]
+
+
+def run_equal(ctx, pi):
+    """Equal rule defaults must decide alike (equality is by printed
+    check): for pairs of near-identical check strings."""
+    from oslo_policy import policy
+    common.set_ctx(ctx)
+    a_text, b_text = EQ_PAIRS[pi]
+    a = policy.RuleDefault('x', a_text)
+    b = policy.RuleDefault('x', b_text)
+    equal = (a == b)
+    ctx.cover('equal:compared')
+    ctx.observe('equal', bool(equal))
+    ctx.require(bool(equal) == (str(a.check) == str(b.check)),
+                'equal:not-by-printed-check',
+                detail={'a': a_text, 'b': b_text, 'equal': bool(equal)})
+    if not equal:
+        return
+    rules = {'pa': a_text, 'pb': b_text, 'admin_required': 'role:adm',
+             'Admin_Required': 'role:ADM2'}
+    enf = common.mk_enforcer(rules=policy.Rules.from_dict(rules))
+    creds = {'roles': ctx.roles('role', ['adm', 'ADM2', 'a', 'b', 'x',
+                                         'admin']),
+             'user_name': ctx.choice('un', ['Alice', 'alice', 'bob']),
+             'project_id': 'p', 'true': 'yes'}
+    target = dict(ctx.choice('target', [
+        {}, {'x': 'True'}, {'x': 'yes'}, {'x': 'Member'}, {'x': 'member'},
+        {'project_id': 'p'}, {'Project_ID': 'p'}]))
+    sa = common.decision(ctx, enf, 'pa', creds, target=target)
+    sb = common.decision(ctx, enf, 'pb', creds, target=target)
+    ctx.require_equiv(sa, sb, 'equal:equal-defaults-decide-differently',
+                      detail={'a': a_text, 'b': b_text})
+
+
+def cubes_equal(tier, seed):
+    return [{'pi': i} for i in range(len(EQ_PAIRS))]
+
+
 def cubes_http(tier, seed):
     return [{'li': i, 'shape': s} for i in range(len(HTTP_LEAVES))
             for s in ('alone', 'not', 'and', 'list')]
@@ -368,10 +418,11 @@ HARNESSES = {
     'nested': {'fn': run_nested, 'cubes': cubes_nested},
     'rulesets': {'fn': run_rulesets, 'cubes': cubes_rulesets},
     'http': {'fn': run_http, 'cubes': cubes_http},
+    'equal': {'fn': run_equal, 'cubes': cubes_equal},
 }
 REQUIRED_COVER = ['tokens:roundtrip', 'lists:roundtrip', 'nested:roundtrip',
                   'rulesets:roundtrip', 'rulesets:equal-defaults',
-                  'http:roundtrip']
+                  'http:roundtrip', 'equal:compared']
 
 
 def cube_weight(h, p):
